@@ -55,6 +55,10 @@ def judge(c: I.Case, vb: VB, part: str) -> str:
     return "bad"
 
 
+PTR_OPS = set(range(0x90, 0x97)) | set(range(0xB0, 0xB7)) | set(range(0x98, 0x9F)) | set(range(0xB8, 0xBF)) | \
+    {0xE0, 0xE1, 0xE2, 0xE8, 0xE9, 0xEA, 0xF0, 0xF1, 0xF2, 0xF8, 0xF9, 0xFA, 0x56, 0x5E, 0xE3, 0xEB}
+
+
 def _shard_a(args):
     pairs, tail, sts = args
     vb = VB()
@@ -65,6 +69,17 @@ def _shard_a(args):
             d = d[: ins.length()]
             for st in sts:
                 r = judge(c03.make_case(d, st, ins.name()), vb, "A")
+                n += 1
+                ok += r == "ok"
+            if op in PTR_OPS and len(d) >= 2:
+                # the same instruction with, behind it in memory, one that shares its prefix and opcode but names another register /
+                # cell (the fetch path decodes ahead): what the first one computes must not change
+                c = c03.make_case(d, sts[0], ins.name())
+                k = 2 if pre is not None else 1
+                sib = d[:k] + bytes([d[k] ^ 0x01]) + bytes(x ^ 0x21 for x in d[k + 1:]) + bytes.fromhex("00000000")
+                for i, b in enumerate(sib):
+                    c.mem[(c.addr + len(d) + i) & 0xFFFFFF] = b
+                r = judge(c, vb, "A")
                 n += 1
                 ok += r == "ok"
             # counted transfers with more than 256 elements: the count ends at 0 and an auto-modified pointer moves by I
